@@ -604,16 +604,24 @@ func TestC02Linearizable(t *testing.T) {
 func c02leftScope(rec *krecord, b *kbind, key string, gen int) bool {
 	_, idx, ok := rec.VC.StateByGen(key, gen)
 	h := rec.VC.History[key]
-	if !ok || idx+1 >= len(h) || rec.PhaseOf[h[idx+1].Gen] != "between-AddMonitor-and-StartMonitor" {
+	if !ok {
 		return false
 	}
-	if h[idx+1].Deleted {
+	// the run of states written in the between phase right after the listed one; its last state decides
+	last := -1
+	for j := idx + 1; j < len(h) && rec.PhaseOf[h[j].Gen] == "between-AddMonitor-and-StartMonitor"; j++ {
+		last = j
+	}
+	if last < 0 {
+		return false
+	}
+	if h[last].Deleted {
 		return true
 	}
 	sel := b.Sel
 	sel.NsLabels = nil
 	parts := strings.SplitN(key, "/", 2)
-	return !rec.VC.Matches(sel, parts[0], parts[1], h[idx+1])
+	return !rec.VC.Matches(sel, parts[0], parts[1], h[last])
 }
 
 // c02ghostCandidates counts the objects that matched the binding and left its scope in the between phase.
